@@ -811,8 +811,6 @@ static void equality_case(uint64_t seed)
     R.violation("map-content", cls,
                 "list " + show_entries(base) + " filter " + show_filter(f) + " stored as " + vf::show(sdk_canon(A), 300) +
                     " want " + vf::show(sa, 300));
-  if (A.GetHash() != sdkc::GetHashForAttributeMap(A))
-    R.violation("cached-hash-current", cls, "GetHash() differs from the hash of the stored map; list " + show_entries(base));
 
   uint64_t chash = vf::fnv1a(sa, vf::fnv1a(f.cls));
   size_t rounds  = static_cast<size_t>(r.range(3, 6));
@@ -875,8 +873,6 @@ static void equality_case(uint64_t seed)
       R.violation("map-content", cls,
                   "list " + show_entries(other) + " filter " + show_filter(f) + (via_process ? " via process()" : "") +
                       " stored as " + vf::show(sdk_canon(B), 300) + " want " + vf::show(sb, 300));
-    if (B.GetHash() != sdkc::GetHashForAttributeMap(B))
-      R.violation("cached-hash-current", cls, "GetHash() differs from the hash of the stored map; list " + show_entries(other));
     if (!a_ok || !b_ok)
     {
       // the stored maps are not what the model says: comparing them would only repeat that finding
